@@ -2,7 +2,7 @@
    formatter (SerEscDefs): transparency of the staging buffer, soundness of every guard, UTF-8
    against the independent specification.  The generated constants of GenSer are used only
    through closed boolean checks decided by computation. *)
-From Coq Require Import NArith List Bool Lia ZifyBool ZifyNat ZifyN.
+From Coq Require Import ZArith NArith List Bool Lia ZifyBool ZifyNat ZifyN.
 Require Import XV.SerDefs.
 Import ListNotations.
 Local Open Scope N_scope.
@@ -353,3 +353,525 @@ Section OtherSound.
     - apply sound_app; [|apply o_charref_sound]. destruct outside; [reflexivity|apply o_str_sound].
   Qed.
 End OtherSound.
+
+(* ==== 4. UTF-8 against the specification ======================================================== *)
+Lemma utf8_ascii_upper_val : utf8_ascii_upper = 127.
+Proof. reflexivity. Qed.
+
+Lemma land_shiftr_ones : forall cp sh k, N.land (N.shiftr cp sh) (N.ones k) = (cp / 2 ^ sh) mod 2 ^ k.
+Proof. intros. rewrite N.shiftr_div_pow2, N.land_ones. reflexivity. Qed.
+
+Section DivMod.
+  Local Ltac Zify.zify_post_hook ::= Z.div_mod_to_equations.
+
+  Theorem u8_code_spec : forall cp, cp <= 1114111 -> payload (u8_code cp) = Ok (utf8_spec cp).
+  Proof.
+    intros cp H. unfold u8_code. rewrite utf8_ascii_upper_val.
+    destruct (N.leb_spec cp 127) as [H0|H0].
+    - unfold u8_unit, utf8_spec. cbn [payload app].
+      destruct (N.ltb_spec cp 128); [reflexivity|lia].
+    - cbv [utf8_rows u8_rows_find row_bytes map]. cbn [payload].
+      change 31 with (N.ones 5). change 63 with (N.ones 6).
+      change 15 with (N.ones 4). change 7 with (N.ones 3).
+      rewrite !land_shiftr_ones.
+      change (2 ^ 0) with 1. change (2 ^ 3) with 8. change (2 ^ 4) with 16. change (2 ^ 5) with 32.
+      change (2 ^ 6) with 64. change (2 ^ 12) with 4096. change (2 ^ 18) with 262144.
+      rewrite !N.div_1_r.
+      unfold utf8_spec.
+      destruct (N.ltb_spec cp 128); [lia|].
+      destruct (N.leb_spec cp 2047); destruct (N.ltb_spec cp 2048); try lia.
+      + cbn [payload app]. do 2 f_equal; [|f_equal]; lia.
+      + destruct (N.leb_spec cp 65535); destruct (N.ltb_spec cp 65536); try lia.
+        * cbn [payload app]. do 2 f_equal; [|f_equal; [|f_equal]]; lia.
+        * destruct (N.leb_spec cp 1114111); [|lia].
+          cbn [payload app].
+          do 2 f_equal; [|f_equal; [|f_equal; [|f_equal]]]; lia.
+  Qed.
+
+  Theorem u8_code_too_big : forall cp, 1114111 < cp -> payload (u8_code cp) = Thrown err_scalar.
+  Proof.
+    intros cp H. unfold u8_code. rewrite utf8_ascii_upper_val.
+    destruct (N.leb_spec cp 127) as [H0|H0]; [lia|].
+    cbv [utf8_rows u8_rows_find].
+    destruct (N.leb_spec cp 2047); [lia|].
+    destruct (N.leb_spec cp 65535); [lia|].
+    destruct (N.leb_spec cp 1114111); [lia|].
+    reflexivity.
+  Qed.
+
+  Local Ltac if_true :=
+    match goal with
+    | |- context [if ?b then _ else _] =>
+        let H := fresh in
+        assert (H : b = true) by (unfold is_cont, is_scalar; lia); rewrite H; clear H
+    end.
+  Local Ltac if_false :=
+    match goal with
+    | |- context [if ?b then _ else _] =>
+        let H := fresh in
+        assert (H : b = false) by (unfold is_cont, is_scalar; lia); rewrite H; clear H
+    end.
+
+  Lemma utf8_decode_spec_cons : forall cp f rest, is_scalar cp = true ->
+    utf8_decode (S f) (utf8_spec cp ++ rest) = option_map (cons cp) (utf8_decode f rest).
+  Proof.
+    intros cp f rest Hs. unfold is_scalar in Hs. unfold utf8_spec.
+    destruct (N.ltb_spec cp 128).
+    - cbn [app utf8_decode]. if_true. reflexivity.
+    - destruct (N.ltb_spec cp 2048).
+      + cbn [app utf8_decode]. do 2 if_false. if_true. if_true.
+        do 2 f_equal. lia.
+      + destruct (N.ltb_spec cp 65536).
+        * cbn [app utf8_decode]. do 3 if_false. if_true. if_true.
+          do 2 f_equal. lia.
+        * cbn [app utf8_decode]. do 4 if_false. if_true. if_true.
+          do 2 f_equal. lia.
+  Qed.
+End DivMod.
+
+Lemma is_high_eq : forall c, is_high c = (55296 <=? c) && (c <=? 56319).
+Proof. reflexivity. Qed.
+Lemma is_low_eq : forall c, is_low c = (56320 <=? c) && (c <=? 57343).
+Proof. reflexivity. Qed.
+
+Lemma decode_pair_eq : forall c lo, 56320 <= lo ->
+  decode_pair c lo = (c - 55296) * 1024 + (lo - 56320) + 65536.
+Proof.
+  intros c lo H. unfold decode_pair.
+  change sur_sub_hi with 55296. change sur_shift with 10. change sur_sub_lo with 56320.
+  change sur_add with 65536.
+  rewrite N.shiftl_mul_pow2. change (2 ^ 10) with 1024. lia.
+Qed.
+
+Lemma utf8_spec_nonempty : forall cp, exists b r, utf8_spec cp = b :: r.
+Proof.
+  intros. unfold utf8_spec.
+  destruct (cp <? 128); [eauto|]. destruct (cp <? 2048); [eauto|]. destruct (cp <? 65536); eauto.
+Qed.
+
+Lemma utf8_decode_spec_app : forall cp bs cps fuel, is_scalar cp = true ->
+  (forall f, (length bs <= f)%nat -> utf8_decode f bs = Some cps) ->
+  (length (utf8_spec cp ++ bs) <= fuel)%nat ->
+  utf8_decode fuel (utf8_spec cp ++ bs) = Some (cp :: cps).
+Proof.
+  intros cp bs cps fuel Hs Hd Hl.
+  destruct fuel as [|f].
+  - destruct (utf8_spec_nonempty cp) as [b [r E]]. rewrite E in Hl. cbn [app length] in Hl. lia.
+  - rewrite utf8_decode_spec_cons by exact Hs. rewrite Hd; [reflexivity|].
+    destruct (utf8_spec_nonempty cp) as [b [r E]]. rewrite E in Hl. cbn [app length] in Hl.
+    rewrite app_length in Hl. lia.
+Qed.
+
+Definition units_ok (s : list N) : bool := forallb (fun c => c <=? 1114111) s.
+
+Lemma utf8_roundtrip_gen : forall n s cps, (length s <= n)%nat -> units_ok s = true ->
+  code_points s = Some cps ->
+  exists bs, payload (u8_str s) = Ok bs /\
+             forall fuel, (length bs <= fuel)%nat -> utf8_decode fuel bs = Some cps.
+Proof.
+  induction n as [|n IH]; intros s cps Hn Hu Hc.
+  - destruct s; [|cbn [length] in Hn; lia]. cbn [code_points] in Hc. injection Hc as <-.
+    exists []. split; [reflexivity|]. intros [|f] _; reflexivity.
+  - destruct s as [|c r].
+    { cbn [code_points] in Hc. injection Hc as <-.
+      exists []. split; [reflexivity|]. intros [|f] _; reflexivity. }
+    cbn [length] in Hn. unfold units_ok in Hu. cbn [forallb] in Hu.
+    apply andb_true_iff in Hu. destruct Hu as [Hu1 Hu2]. fold (units_ok r) in Hu2.
+    cbn [code_points] in Hc. cbn [u8_str]. rewrite is_high_eq.
+    destruct ((55296 <=? c) && (c <=? 56319)) eqn:Eh; cbn [negb].
+    + destruct r as [|lo r']; [discriminate|].
+      rewrite is_low_eq.
+      destruct ((56320 <=? lo) && (lo <=? 57343)) eqn:El; [|discriminate].
+      destruct (code_points r') as [cps'|] eqn:Ec; [|discriminate].
+      cbn [option_map] in Hc. injection Hc as <-.
+      unfold units_ok in Hu2. cbn [forallb] in Hu2. apply andb_true_iff in Hu2.
+      destruct Hu2 as [_ Hu3].
+      destruct (IH r' cps') as [bs' [Hp Hd]]; [cbn [length] in Hn; lia|exact Hu3|exact Ec|].
+      rewrite decode_pair_eq by lia.
+      set (cp := (c - 55296) * 1024 + (lo - 56320) + 65536).
+      assert (Hcp : cp <= 1114111) by (subst cp; lia).
+      exists (utf8_spec cp ++ bs'). split.
+      * rewrite payload_app, (u8_code_spec cp Hcp), Hp. reflexivity.
+      * intros fuel Hf. apply utf8_decode_spec_app; [|exact Hd|exact Hf].
+        unfold is_scalar. subst cp. lia.
+    + destruct ((56320 <=? c) && (c <=? 57343)) eqn:El; [discriminate|].
+      destruct (code_points r) as [cps'|] eqn:Ec; [|discriminate].
+      cbn [option_map] in Hc. injection Hc as <-.
+      destruct (IH r cps') as [bs' [Hp Hd]]; [lia|exact Hu2|exact Ec|].
+      assert (Hcp : c <= 1114111) by lia.
+      exists (utf8_spec c ++ bs'). split.
+      * rewrite payload_app, (u8_code_spec c Hcp), Hp. reflexivity.
+      * intros fuel Hf. apply utf8_decode_spec_app; [|exact Hd|exact Hf].
+        unfold is_scalar. lia.
+Qed.
+
+(* UTF-16 code units are 16 bit; the hypothesis [units_ok] (every unit <= 0x10FFFF) is weaker *)
+Theorem utf8_roundtrip : forall s cps, units_ok s = true -> code_points s = Some cps ->
+  exists bs, payload (u8_str s) = Ok bs /\ utf8_decode (S (length bs)) bs = Some cps.
+Proof.
+  intros s cps Hu Hc.
+  destruct (utf8_roundtrip_gen (length s) s cps (le_n _) Hu Hc) as [bs [Hp Hd]].
+  exists bs. split; [exact Hp|]. apply Hd. lia.
+Qed.
+
+Lemma units16_ok : forall s, forallb (fun c => c <? 65536) s = true -> units_ok s = true.
+Proof.
+  intros s H. unfold units_ok. rewrite forallb_forall in *. intros x Hx. specialize (H x Hx). lia.
+Qed.
+
+Corollary utf8_roundtrip16 : forall s cps, forallb (fun c => c <? 65536) s = true ->
+  code_points s = Some cps ->
+  exists bs, payload (u8_str s) = Ok bs /\ utf8_decode (S (length bs)) bs = Some cps.
+Proof. intros s cps H. apply utf8_roundtrip. apply units16_ok. exact H. Qed.
+
+(* the hypothesis on the units cannot be dropped: a "unit" above 0x10FFFF is a code point for
+   [code_points] but XalanUTF8Writer throws *)
+Lemma utf8_roundtrip_needs_units_ok :
+  code_points [1114112] = Some [1114112] /\ payload (u8_str [1114112]) = Thrown err_scalar.
+Proof. split; vm_compute; reflexivity. Qed.
+
+(* known finding K7: lone low surrogate written as a 3-byte sequence *)
+Theorem utf8_lone_low_refuted :
+  payload (u8_str [56832]) = Ok [237; 184; 128] /\ utf8_decode 4 [237; 184; 128] = None /\
+  code_points [56832] = None.
+Proof. repeat split; vm_compute; reflexivity. Qed.
+
+Theorem utf8_lone_high_throws : forall c, is_high c = true -> payload (u8_str [c]) = Thrown err_surrogate.
+Proof. intros c H. cbn [u8_str]. rewrite H. reflexivity. Qed.
+
+(* ==== 3. the formatter produces sound items only ================================================== *)
+Record fam_sound (F : fam) : Prop := mk_fam_sound {
+  fs_unit : forall c, sound (f_kbuf F) (f_unit F c);
+  fs_const : forall l, sound (f_kbuf F) (f_const F l);
+  fs_str : forall l, sound (f_kbuf F) (f_str F l);
+  fs_name : forall l, sound (f_kbuf F) (f_name F l);
+  fs_at : forall c r, sound (f_kbuf F) (fst (f_at F c r));
+  fs_cdata_char : forall c r o, sound (f_kbuf F) (fst (fst (f_cdata_char F c r o)));
+  fs_newline : sound (f_kbuf F) (f_newline F)
+}.
+
+Lemma fam_utf8_sound : fam_sound fam_utf8.
+Proof.
+  constructor; cbn [fam_utf8 f_kbuf f_unit f_const f_str f_name f_at f_cdata_char f_newline]; intros.
+  - apply u8_unit_sound.
+  - apply u8_block_sound.
+  - apply u8_str_sound.
+  - apply u8_str_sound.
+  - apply u8_at_sound.
+  - pose proof (u8_at_sound c r) as H. destruct (u8_at c r). exact H.
+  - apply u8_str_sound.
+Qed.
+
+Lemma fam_utf16_sound : fam_sound fam_utf16.
+Proof.
+  constructor; cbn [fam_utf16 f_kbuf f_unit f_const f_str f_name f_at f_cdata_char f_newline fst]; intros.
+  - apply u16_unit_sound.
+  - apply u16_block_sound.
+  - apply u16_block_sound.
+  - apply u16_block_sound.
+  - apply u16_unit_sound.
+  - apply u16_unit_sound.
+  - apply u16_block_sound.
+Qed.
+
+Lemma fam_other_sound : forall rep, fam_sound (fam_other rep).
+Proof.
+  intros rep.
+  constructor; cbn [fam_other f_kbuf f_unit f_const f_str f_name f_at f_cdata_char f_newline]; intros.
+  - apply o_unit_sound.
+  - apply o_str_sound.
+  - apply o_str_sound.
+  - apply o_name_sound.
+  - apply o_at_sound.
+  - apply o_cdata_char_sound.
+  - apply o_str_sound.
+Qed.
+
+Lemma fam_of_sound : forall k, fam_sound (fam_of k).
+Proof.
+  intros [] ; cbn [fam_of];
+    [apply fam_utf8_sound|apply fam_utf16_sound|apply fam_other_sound|apply fam_other_sound].
+Qed.
+
+Lemma char_loop_sound_aux : forall kb (step : N -> list N -> list item * bool),
+  (forall c r, sound kb (fst (step c r))) ->
+  forall l, sound kb (char_loop step l) /\ forall c, sound kb (char_loop step (c :: l)).
+Proof.
+  intros kb step Hs. induction l as [|a l [IH1 IH2]].
+  - split; [reflexivity|]. intros c. cbn [char_loop].
+    pose proof (Hs c []) as H. destruct (step c []) as [its skip]. cbn [fst] in H.
+    apply sound_app; [exact H|]. destruct skip; reflexivity.
+  - split; [apply IH2|]. intros c. cbn [char_loop]. fold (char_loop step (a :: l)).
+    pose proof (Hs c (a :: l)) as H. destruct (step c (a :: l)) as [its skip]. cbn [fst] in H.
+    apply sound_app; [exact H|]. destruct skip; [apply IH1|apply IH2].
+Qed.
+
+Lemma char_loop_sound : forall kb (step : N -> list N -> list item * bool),
+  (forall c r, sound kb (fst (step c r))) -> forall l, sound kb (char_loop step l).
+Proof. intros kb step Hs l. apply (char_loop_sound_aux kb step Hs l). Qed.
+
+Section FormatterSound.
+  Variable F : fam.
+  Variable v11 : bool.
+  Hypothesis HF : fam_sound F.
+  Local Notation kb := (f_kbuf F).
+
+  Lemma units_sound : forall l, sound kb (units F l).
+  Proof. intros. unfold units. apply sound_flat_map. apply (fs_unit F HF). Qed.
+
+  Lemma ncr_sound : forall n, sound kb (ncr F n).
+  Proof.
+    intros. unfold ncr.
+    repeat apply sound_app; try apply (fs_unit F HF). apply (fs_str F HF).
+  Qed.
+
+  Lemma default_entity_sound : forall c its, default_entity F c = Some its -> sound kb its.
+  Proof.
+    intros c its. unfold default_entity.
+    destruct (c =? 60); [intros H; injection H as <-; apply (fs_const F HF)|].
+    destruct (c =? 62); [intros H; injection H as <-; apply (fs_const F HF)|].
+    destruct (c =? 38); [intros H; injection H as <-; apply (fs_const F HF)|].
+    discriminate.
+  Qed.
+
+  Lemma default_escape_sound : forall c, sound kb (default_escape F v11 c).
+  Proof.
+    intros. unfold default_escape.
+    destruct (default_entity F c) eqn:E; [eapply default_entity_sound; exact E|].
+    destruct (c =? 10); [apply (fs_newline F HF)|].
+    destruct (p_forbidden v11 c); [reflexivity|apply ncr_sound].
+  Qed.
+
+  Lemma default_attr_escape_sound : forall c, sound kb (default_attr_escape F v11 c).
+  Proof.
+    intros. unfold default_attr_escape.
+    destruct (default_entity F c) eqn:E; [eapply default_entity_sound; exact E|].
+    destruct (c =? 34); [apply (fs_const F HF)|].
+    destruct (p_forbidden v11 c); [reflexivity|apply ncr_sound].
+  Qed.
+
+  Lemma normalized_big_sound : forall c r, sound kb (fst (normalized_big F v11 c r)).
+  Proof.
+    intros. unfold normalized_big.
+    destruct (v11 && (c =? 8232)); [apply ncr_sound|apply (fs_at F HF)].
+  Qed.
+
+  Lemma content_step_sound : forall c r, sound kb (fst (content_step F v11 c r)).
+  Proof.
+    intros. unfold content_step.
+    destruct (p_range v11 c); [apply normalized_big_sound|].
+    destruct (negb (p_content v11 c)); cbn [fst]; [apply (fs_unit F HF)|apply default_escape_sound].
+  Qed.
+
+  Lemma attr_step_sound : forall c r, sound kb (fst (attr_step F v11 c r)).
+  Proof.
+    intros. unfold attr_step.
+    destruct (p_range v11 c); [apply normalized_big_sound|].
+    destruct (negb (p_attribute v11 c)); cbn [fst]; [apply (fs_unit F HF)|apply default_attr_escape_sound].
+  Qed.
+
+  Lemma normalized_step_sound : forall c r, sound kb (fst (normalized_step F v11 c r)).
+  Proof.
+    intros. unfold normalized_step.
+    destruct (c =? 10); [apply (fs_newline F HF)|].
+    destruct (p_crforbidden v11 c); [reflexivity|apply (fs_at F HF)].
+  Qed.
+
+  Lemma write_content_sound : forall s, sound kb (write_content F v11 s).
+  Proof. intros. apply char_loop_sound. apply content_step_sound. Qed.
+
+  Lemma write_attr_string_sound : forall s, sound kb (write_attr_string F v11 s).
+  Proof. intros. apply char_loop_sound. apply attr_step_sound. Qed.
+
+  Lemma write_normalized_data_sound : forall s, sound kb (write_normalized_data F v11 s).
+  Proof. intros. apply char_loop_sound. apply normalized_step_sound. Qed.
+End FormatterSound.
+
+(* cdata_loop: the deferred part [plain] of the body, named *)
+Definition cdata_plain (F : fam) (v11 : bool) (c : N) (r : list N) (outside : bool) : list item * bool :=
+  if c =? 10 then let '(its, o) := cdata_loop F v11 r outside in (f_newline F ++ its, o)
+  else if p_crforbidden v11 c then ([IThrow err_forbidden], outside)
+  else
+    let '(its, skip, o1) := f_cdata_char F c r outside in
+    let '(its2, o2) :=
+      if skip then match r with [] => ([], o1) | _ :: r' => cdata_loop F v11 r' o1 end
+      else cdata_loop F v11 r o1 in
+    (its ++ its2, o2).
+
+Lemma cdata_loop_cons : forall F v11 c r outside,
+  cdata_loop F v11 (c :: r) outside =
+  if c =? 93 then
+    if longer_than cdata_lookahead_gt (c :: r) then
+      match r with
+      | a :: b :: r'' =>
+          if (a =? 93) && (b =? 62) then
+            let '(its, o) := cdata_loop F v11 r'' false in
+            ((if outside then f_const F s_cdata_open else []) ++
+             f_unit F 93 ++ f_unit F 93 ++ f_const F s_cdata_close ++
+             f_const F s_cdata_open ++ f_unit F 62 ++ its, o)
+          else cdata_plain F v11 c r outside
+      | _ => cdata_plain F v11 c r outside
+      end
+    else cdata_plain F v11 c r outside
+  else cdata_plain F v11 c r outside.
+Proof. reflexivity. Qed.
+
+Section FormatterSound2.
+  Variable F : fam.
+  Variable v11 : bool.
+  Hypothesis HF : fam_sound F.
+  Local Notation kb := (f_kbuf F).
+
+  Lemma cdata_plain_sound : forall n c r outside,
+    (forall l o, (length l <= n)%nat -> sound kb (fst (cdata_loop F v11 l o))) ->
+    (length r <= n)%nat -> sound kb (fst (cdata_plain F v11 c r outside)).
+  Proof.
+    intros n c r outside IH Hn. unfold cdata_plain.
+    destruct (c =? 10).
+    { pose proof (IH r outside Hn) as H. destruct (cdata_loop F v11 r outside) as [its o].
+      cbn [fst] in *. apply sound_app; [apply (fs_newline F HF)|exact H]. }
+    destruct (p_crforbidden v11 c); [reflexivity|].
+    pose proof (fs_cdata_char F HF c r outside) as H.
+    destruct (f_cdata_char F c r outside) as [[its skip] o1]. cbn [fst] in H.
+    destruct skip.
+    - destruct r as [|x r']; cbn [fst].
+      + apply sound_app; [exact H|reflexivity].
+      + assert (Hn' : (length r' <= n)%nat) by (cbn [length] in Hn; lia).
+        pose proof (IH r' o1 Hn') as H2. destruct (cdata_loop F v11 r' o1) as [its2 o2].
+        cbn [fst] in *. apply sound_app; assumption.
+    - pose proof (IH r o1 Hn) as H2. destruct (cdata_loop F v11 r o1) as [its2 o2].
+      cbn [fst] in *. apply sound_app; assumption.
+  Qed.
+
+  Lemma cdata_loop_sound_gen : forall n l o, (length l <= n)%nat ->
+    sound kb (fst (cdata_loop F v11 l o)).
+  Proof.
+    induction n as [|n IH]; intros l o Hn.
+    - destruct l; [reflexivity|cbn [length] in Hn; lia].
+    - destruct l as [|c r]; [reflexivity|]. cbn [length] in Hn.
+      assert (Hr : (length r <= n)%nat) by lia.
+      rewrite cdata_loop_cons.
+      pose proof (cdata_plain_sound n c r o IH Hr) as Hp.
+      destruct (c =? 93); [|exact Hp].
+      destruct (longer_than cdata_lookahead_gt (c :: r)); [|exact Hp].
+      destruct r as [|a [|b r'']]; [exact Hp|exact Hp|].
+      destruct ((a =? 93) && (b =? 62)); [|exact Hp].
+      assert (Hn' : (length r'' <= n)%nat) by (cbn [length] in Hr; lia).
+      pose proof (IH r'' false Hn') as H2. destruct (cdata_loop F v11 r'' false) as [its o2].
+      cbn [fst] in *.
+      apply sound_app; [destruct o; [apply (fs_const F HF)|reflexivity]|].
+      repeat (apply sound_app; [first [apply (fs_unit F HF)|apply (fs_const F HF)]|]).
+      exact H2.
+  Qed.
+
+  Lemma cdata_loop_sound : forall l o, sound kb (fst (cdata_loop F v11 l o)).
+  Proof. intros. apply (cdata_loop_sound_gen (length l)). apply le_n. Qed.
+
+  Lemma write_cdata_sound : forall s, sound kb (write_cdata F v11 s).
+  Proof.
+    intros. unfold write_cdata. pose proof (cdata_loop_sound s false) as H.
+    destruct (cdata_loop F v11 s false) as [its o]. cbn [fst] in H.
+    apply sound_app; [apply (fs_const F HF)|]. apply sound_app; [exact H|].
+    destruct o; [reflexivity|apply (fs_const F HF)].
+  Qed.
+
+  Lemma write_comment_sound : forall s, sound kb (write_comment F v11 s).
+  Proof.
+    intros. unfold write_comment.
+    apply sound_app; [apply units_sound; exact HF|].
+    apply sound_app; [apply write_normalized_data_sound; exact HF|apply units_sound; exact HF].
+  Qed.
+
+  Lemma write_pi_sound : forall t d, sound kb (write_pi F v11 t d).
+  Proof.
+    intros. unfold write_pi.
+    apply sound_app; [apply units_sound; exact HF|].
+    apply sound_app; [apply (fs_name F HF)|].
+    apply sound_app.
+    { destruct d as [|c d]; [reflexivity|]. destruct (is_xml_ws c); [reflexivity|apply (fs_unit F HF)]. }
+    apply sound_app; [apply write_normalized_data_sound; exact HF|apply units_sound; exact HF].
+  Qed.
+
+  Lemma write_header_sound : forall ver enc, sound kb (write_header F ver enc).
+  Proof.
+    intros. unfold write_header.
+    repeat (apply sound_app; [first [apply (fs_const F HF)|apply (fs_str F HF)]|]).
+    apply (fs_const F HF).
+  Qed.
+
+  Lemma parent_tag_end_sound : forall st, sound kb (fst (parent_tag_end F st)).
+  Proof.
+    intros. unfold parent_tag_end. destruct st as [|[] st]; cbn [fst]; try reflexivity.
+    apply (fs_unit F HF).
+  Qed.
+
+  Lemma write_attribute_sound : forall a, sound kb (write_attribute F v11 a).
+  Proof.
+    intros. unfold write_attribute.
+    repeat (apply sound_app;
+            [first [apply (fs_unit F HF)|apply (fs_name F HF)|apply write_attr_string_sound; exact HF]|]).
+    apply (fs_unit F HF).
+  Qed.
+
+  Lemma event_items_sound : forall e st, sound kb (fst (event_items F v11 e st)).
+  Proof.
+    intros e st. pose proof (parent_tag_end_sound st) as Hp.
+    destruct e as [name attrs|name|s|s|s|t d]; cbn [event_items].
+    - destruct (parent_tag_end F st) as [p st1]. cbn [fst] in *.
+      apply sound_app; [exact Hp|]. apply sound_app; [apply (fs_unit F HF)|].
+      apply sound_app; [apply (fs_name F HF)|]. apply sound_flat_map. apply write_attribute_sound.
+    - destruct st as [|b r]; cbn [fst].
+      + apply sound_app; apply (fs_unit F HF).
+      + apply sound_app; [|apply (fs_unit F HF)]. destruct b; [|apply (fs_unit F HF)].
+        apply sound_app; [apply (fs_unit F HF)|]. apply sound_app; [apply (fs_unit F HF)|apply (fs_name F HF)].
+    - destruct s as [|c s]; [reflexivity|].
+      destruct (parent_tag_end F st) as [p st1]. cbn [fst] in *.
+      apply sound_app; [exact Hp|apply write_content_sound; exact HF].
+    - destruct s as [|c s]; [reflexivity|].
+      destruct (parent_tag_end F st) as [p st1]. cbn [fst] in *.
+      apply sound_app; [exact Hp|apply write_cdata_sound].
+    - destruct (parent_tag_end F st) as [p st1]. cbn [fst] in *.
+      apply sound_app; [exact Hp|apply write_comment_sound].
+    - destruct (parent_tag_end F st) as [p st1]. cbn [fst] in *.
+      apply sound_app; [exact Hp|apply write_pi_sound].
+  Qed.
+
+  Lemma events_items_sound : forall es st, sound kb (events_items F v11 es st).
+  Proof.
+    induction es as [|e es IH]; intros st; [reflexivity|].
+    cbn [events_items]. pose proof (event_items_sound e st) as H.
+    destruct (event_items F v11 e st) as [its st1]. cbn [fst] in H.
+    apply sound_app; [exact H|apply IH].
+  Qed.
+End FormatterSound2.
+
+Lemma document_items_sound : forall F v11 ver enc es, fam_sound F ->
+  forallb (item_sound (f_kbuf F)) (document_items F v11 ver enc es) = true.
+Proof.
+  intros F v11 ver enc es HF. unfold document_items.
+  apply sound_app; [apply write_header_sound; exact HF|].
+  apply sound_app; [apply events_items_sound; exact HF|reflexivity].
+Qed.
+
+Definition kbuf_fits (k : encoding_kind) : bool := f_kbuf (fam_of k) <? 2 ^ 64.
+
+Lemma kbuf_fits_all : forall k, kbuf_fits k = true.
+Proof. intros []; vm_compute; reflexivity. Qed.
+
+Theorem serialize_transparent : forall k v11 ver enc es,
+  serialize k v11 ver enc es = payload (document_items (fam_of k) v11 ver enc es).
+Proof.
+  intros. unfold serialize.
+  pose proof (kbuf_fits_all k) as Hk. unfold kbuf_fits in Hk. apply N.ltb_lt in Hk.
+  pose proof (run_transparent (f_kbuf (fam_of k)) (document_items (fam_of k) v11 ver enc es)
+                (wr_init (f_kbuf (fam_of k))) Hk (wr_init_inv _)
+                (document_items_sound _ v11 ver enc es (fam_of_sound k))) as H.
+  destruct (payload (document_items (fam_of k) v11 ver enc es)) as [bs| |c].
+  - destruct H as [w' [E [_ U]]]. rewrite E, U, all_units_init. reflexivity.
+  - destruct H.
+  - rewrite H. reflexivity.
+Qed.
+
+(* corollaries: the serializer never stores outside its staging buffer *)
+Corollary serialize_never_oob : forall k v11 ver enc es, serialize k v11 ver enc es <> Oob.
+Proof. intros. rewrite serialize_transparent. apply payload_not_oob. Qed.
